@@ -22,6 +22,7 @@ from pyvc.values import ModelFn, Obj, Opaque
 
 good = z3.Function("fs_good", INT, BOOL)  # the content decodes without error
 view = z3.Function("fs_view", INT, INT)  # the view it decodes to
+fs_size = z3.Function("fs_size", INT, INT)  # length in bytes of a content
 ABSENT_VIEW = z3.IntVal(0)  # "no state": what a start-up without any usable file yields
 EMPTY_CONTENT = z3.IntVal(-1)  # a zero-length file
 
@@ -118,6 +119,7 @@ class FileHandle:
     def __init__(self, fs, path, mode, ino):
         self.fs, self.path, self.mode, self.ino = fs, path, mode, ino
         self.closed = False
+        self.buffer = None
 
     def _pyvc_attr(self, it, name):
         fn = it.fs_handle_methods.get(name)
@@ -132,6 +134,7 @@ def install(it, fs):
 
     it.env["fs"] = fs
     ctx = it.ctx
+    ctx.add_fact(z3.Not(good(EMPTY_CONTENT)))  # a zero-length file does not decode (json and pickle both raise)
 
     def m_isfile(it2, a, k):
         return fs.names.get(fs.p(a[0])) is not None
@@ -180,8 +183,11 @@ def install(it, fs):
             if fs.step(f"{kind}.dump:write-rest", fh.path):
                 exc = it2.env.get("dump_fault", OSError)
                 raise PyRaise(ExcVal(exc, ("injected fault while writing",), site=f"fs:{kind}.dump"))
-            fh.ino.cur = new
-            fh.ino.dur = ctx.fresh_term(INT, "unsynced")  # anything may be on disk until fsync
+            # the serialiser writes into the file object's user-space buffer: the operating system has seen
+            # some prefix of it (a large state is flushed piecewise), the disk anything, until flush + fsync
+            fh.buffer = new
+            fh.ino.cur = ctx.fresh_term(INT, "os_has_prefix")
+            fh.ino.dur = ctx.fresh_term(INT, "unsynced")
             return None
 
         return fn
@@ -228,6 +234,16 @@ def install(it, fs):
         fs.pending.append(("remove", p))
         return None
 
+    def m_getsize(it2, a, k):
+        ino = fs.names.get(fs.p(a[0]))
+        if ino is None:
+            raise PyRaise(ExcVal(FileNotFoundError, (fs.p(a[0]),), site="fs:getsize"))
+        sz = fs_size(ino.cur)
+        ctx.add_fact(sz >= 0)
+        ctx.add_fact((sz == 0) == (ino.cur == EMPTY_CONTENT))
+        return SV("int", sz)
+
+    it.models[id(os.path.getsize)] = ModelFn("os.path.getsize", m_getsize)
     it.models[id(os.path.isfile)] = ModelFn("os.path.isfile", m_isfile)
     it.models[id(os.access)] = ModelFn("os.access", m_access)
     it.models[id(open)] = ModelFn("open", m_open)
@@ -259,12 +275,17 @@ class LoadedView:
 def _flush(fs, fh):
     if fs.step("flush", fh.path):
         fs.fail("flush")
+    if getattr(fh, "buffer", None) is not None:
+        fh.ino.cur = fh.buffer  # the buffered data reaches the operating system (not yet the disk)
     return None
 
 
 def _close(fs, fh):
     if not fh.closed:
         fh.closed = True
-        if "w" in fh.mode and fs.step("close", fh.path):
-            fs.fail("close")
+        if "w" in fh.mode:
+            if fs.step("close", fh.path):
+                fs.fail("close")
+            if getattr(fh, "buffer", None) is not None:
+                fh.ino.cur = fh.buffer  # close() flushes
     return False
